@@ -191,6 +191,10 @@ Proof. intros cx env s s' env' u Hgl Hinv H. exact (check_stmt_eok cx (cx_global
 Theorem eok_covers_positions : forall G env0 s env e,
   stmt_eok G env0 s = true -> eager_in_stmt G env0 s env e -> eager_ok G env e = true.
 Proof. intros G env0 s env e Hok Hpos. exact (proj1 (eok_pos G) _ _ _ _ Hpos Hok). Qed.
+(* ... and complete: the executable check `file_eok` says exactly "every enumerated position is eager_ok" *)
+Theorem file_eok_iff_positions : forall f,
+  file_eok f = true <-> forall env e, eager_in_file f env e -> eager_ok (is_global f) env e = true.
+Proof. exact file_eok_iff_pos. Qed.
 
 (* ---- Examples ---- *)
 (* (identifier)* @id {
